@@ -281,7 +281,7 @@ func c14Case(r *verifkit.R, phase string, ci int, rng *verifkit.Rand, churn bool
 	}
 	r.Add("cases_"+phase, 1)
 	r.Eval(fmt.Sprintf("%s|%s|%d/%d", phase, st.desc, st.judgedClean, st.judgedReplay), st.judgedClean+st.judgedReplay >= 2)
-	if st.vio == 0 && r.NeedSample() {
+	if r.NeedSample() {
 		tr := s.Trace
 		if len(tr) > 40 {
 			tr = tr[:40]
